@@ -24,13 +24,36 @@ theorem nc18a_bare_cr_splits_record :
     parse .exetera ['s', ',', 'n', '\n', 'i', '\r', 'j', ',', '5', '\n'] = [[['s'], ['n']], [['i', '\r', 'j'], ['5']]] := by
   decide
 
-/-- NC18b: `to_pandas` refuses the row filters `to_csv` accepts — a Field, and a boolean filter shorter than the frame. -/
+/-- D30 / NC18a repaired (fixes/D30_NC18a): with ExeTera's own `_csv_record` both witnesses are written in quotes and both
+    readers return them intact. -/
+theorem d30_nc18a_repaired_cells_survive :
+    toCsv csvRecord [⟨['s'], [[' ', 'a'], [' ', ' ']]⟩, ⟨['n'], [['1'], ['2']]⟩] .none .none 2
+      = .ok ['s', ',', 'n', '\n', '"', ' ', 'a', '"', ',', '1', '\n', '"', ' ', ' ', '"', ',', '2', '\n'] ∧
+    parse .exetera ['s', ',', 'n', '\n', '"', ' ', 'a', '"', ',', '1', '\n', '"', ' ', ' ', '"', ',', '2', '\n']
+      = [[['s'], ['n']], [[' ', 'a'], ['1']], [[' ', ' '], ['2']]] ∧
+    toCsv csvRecord [⟨['s'], [['i', '\r', 'j']]⟩, ⟨['n'], [['5']]⟩] .none .none 1
+      = .ok ['s', ',', 'n', '\n', '"', 'i', '\r', 'j', '"', ',', '5', '\n'] ∧
+    parse .std ['s', ',', 'n', '\n', '"', 'i', '\r', 'j', '"', ',', '5', '\n'] = [[['s'], ['n']], [['i', '\r', 'j'], ['5']]] := by
+  decide
+
+/-- NC18b as found (repaired by fixes/NC18b): `to_pandas` refused the row filters `to_csv` accepts — a Field, and a boolean
+    filter shorter than the frame — and read an integer array as row numbers. The repaired variant returns the rows `to_csv`
+    writes. -/
 theorem nc18b_to_pandas_refuses_csv_filters :
-    toPandas [⟨['s'], [['a'], ['b'], ['c']]⟩] (.field [true, false, true]) .none
+    toPandas .asFound [⟨['s'], [['a'], ['b'], ['c']]⟩] (.field true [true, false, true]) .none
       = .error (.oob "only integers, slices, ... are valid indices") ∧
-    toPandas [⟨['s'], [['a'], ['b'], ['c']]⟩] (.array [true, false]) .none
+    toPandas .asFound [⟨['s'], [['a'], ['b'], ['c']]⟩] (.array [true, false]) .none
       = .error (.oob "boolean index did not match indexed array") ∧
-    toCsv renderRow [⟨['s'], [['a'], ['b'], ['c']]⟩] (.array [true, false]) .none 2 = .ok ['s', '\n', 'a', '\n'] := by decide
+    toPandas .asFound [⟨['s'], [['a'], ['b'], ['c']]⟩] (.intArray [1, 0, 1]) .none = .ok [(['s'], [['b'], ['a'], ['b']])] ∧
+    toCsv renderRow [⟨['s'], [['a'], ['b'], ['c']]⟩] (.array [true, false]) .none 2 = .ok ['s', '\n', 'a', '\n'] ∧
+    toCsv renderRow [⟨['s'], [['a'], ['b'], ['c']]⟩] (.intArray [1, 0, 1]) .none 2 = .ok ['s', '\n', 'a', '\n', 'c', '\n'] := by
+  decide
+
+/-- … on which the repaired variant returns the rows `to_csv` writes -/
+theorem nc18b_repaired_selects_csv_rows :
+    toPandas .repaired [⟨['s'], [['a'], ['b'], ['c']]⟩] (.field true [true, false, true]) .none = .ok [(['s'], [['a'], ['c']])] ∧
+    toPandas .repaired [⟨['s'], [['a'], ['b'], ['c']]⟩] (.array [true, false]) .none = .ok [(['s'], [['a']])] ∧
+    toPandas .repaired [⟨['s'], [['a'], ['b'], ['c']]⟩] (.intArray [1, 0, 1]) .none = .ok [(['s'], [['a'], ['c']])] := by decide
 
 /-- without a column left to write (the frame's only column is the filter) the loop fails at `chunk_data[0]` (IndexError) -/
 theorem no_columns_index_error :
